@@ -1,3 +1,4 @@
+#![cfg_attr(kani, recursion_limit = "1024")]
 pub mod model;
 pub mod data_model;
 pub mod parsing;
